@@ -687,6 +687,29 @@ class C19(Prop):
                                       "signature": sig}))
         return fails
 
+    # -- faults during link establishment on the real transports, judged at the endpoint level ---------------------
+    def _establish_sweep(self, cr: Optional[_ClassRun], ctx: Ctx, res: Result, kinds=None) -> list:
+        from harness import c19_endpoints as E
+        from harness import c19_dyn as D
+        fails, seen = [], set()
+        cls = cr.cls if cr is not None else None
+        builder = cr.builder if cr is not None else D.Builder()
+        for kind in (kinds or list(E.KINDS)):
+            viol = E.establish_faults(cls, cr.variant if cr is not None else "", kind, builder, res.count)
+            res.note_case(((cr.name if cr else "bare-transport"), "establish", kind, len(viol)), nontrivial=True)
+            for op, way, who, clause, detail in viol:
+                scope = "" if clause.startswith("endpoint left") else f" [{cr.name if cr else 'transport'}]"
+                sig = f"{who}: {op} fails ({way}) -> {clause}{scope}"
+                if sig in seen:
+                    continue
+                seen.add(sig)
+                fails.append(Failure(sig, f"{cr.name if cr else 'bare ' + kind + ' transport'}: link establishment over the real "
+                                          f"{kind} transport, {op} fails ({way}): {clause}; {detail}",
+                                     {"kind": "establish", "class": (cr.cls.__name__ if cr else None),
+                                      "module": (cr.cls.__module__ if cr else None), "variant": (cr.variant if cr else ""),
+                                      "transport": kind, "op": op, "way": way, "signature": sig}))
+        return fails
+
     # -- drivers that are not transport-based: the flag protocol of QMI_Instrument alone ---------------------------
     def _base_histories(self, ctx: Ctx, res: Result, lines, impl, meta, with_model: bool):
         """QMI_Instrument itself and every shipped driver that inherits open()/close() unchanged and can be constructed
@@ -824,6 +847,7 @@ class C19(Prop):
                                              f"(theorem closebad_{cr.name}) but no injected fault reproduces it on the real class",
                                              case={"class": cr.cls.__name__, "variant": cr.variant}))
             try:
+                res.failures += self._establish_sweep(cr, ctx, res)
                 res.failures += self._endpoint_histories(cr, ctx, res)
             except Exception as e:
                 res.broken.append(Broken("correspondence", f"C19.endpoints.{cr.name}",
@@ -905,6 +929,11 @@ class C19(Prop):
                                          f"transport_io_bare) but no history on the real transport classes reaches the device through it"))
         if only is None:
             try:
+                res.failures += self._establish_sweep(None, ctx, res)
+            except Exception as e:
+                res.broken.append(Broken("correspondence", "C19.establish.bare", f"{type(e).__name__}: {e}\n{traceback.format_exc()[-1200:]}"))
+        if only is None:
+            try:
                 self._base_histories(ctx, res, lines, impl, meta, with_model)
             except Exception as e:
                 res.broken.append(Broken("correspondence", "C19.base_histories", f"{type(e).__name__}: {e}\n{traceback.format_exc()[-1200:]}"))
@@ -948,6 +977,12 @@ class C19(Prop):
     def replay(self, ctx: Ctx, rp: dict):
         from harness import c19_dyn as D
         core.ensure_repo_on_path()
+        if rp.get("kind") == "establish" and not rp.get("class"):
+            fails = self._establish_sweep(None, ctx, Result(), kinds=[rp["transport"]])
+            for f in fails:
+                if f.signature == rp.get("signature"):
+                    return f
+            return fails[0] if fails else None
         runs = [cr for cr in self._class_runs() if cr.cls.__name__ == rp["class"] and cr.variant == rp.get("variant", "")]
         if not runs:
             return Failure(rp.get("signature", "?"), f"class {rp['class']} no longer exists", rp)
@@ -971,6 +1006,12 @@ class C19(Prop):
         if rp.get("kind") in ("closefault", "fault2"):
             fails = (self._sweep_close(cr, ctx, res, [], [], [], False) if rp["kind"] == "closefault"
                      else self._sweep_multi(cr, ctx, res, [], [], [], False, self._one_open(cr, None)[0].sess.n))
+            for f in fails:
+                if f.signature == rp.get("signature"):
+                    return f
+            return fails[0] if fails else None
+        if rp.get("kind") == "establish":
+            fails = self._establish_sweep(cr if rp.get("class") else None, ctx, res, kinds=[rp["transport"]])
             for f in fails:
                 if f.signature == rp.get("signature"):
                     return f
